@@ -172,6 +172,42 @@ def r3(ctx):
     ctx.floor(R, 8)
 
 
+def _bit_range(b, op, width):
+    """[lo, hi) of the counter bits an address component is built from: cast(BitAnd(Shr(host, k), mask)) shapes; None if constant"""
+    o = origin(b, op)
+    if o["k"] == "const":
+        return None
+    shift, mask_bits, cast_bits = 0, None, None
+    cur = o
+    for _ in range(8):
+        if cur["k"] == "cast":
+            dst = b.tys[cur["ty"]]["s"]
+            m = re.match(r"u(\d+)$", dst)
+            if m:
+                cast_bits = int(m.group(1)) if cast_bits is None else min(cast_bits, int(m.group(1)))
+            cur = cur["o"]
+        elif cur["k"] == "bin" and cur["op"] == "BitAnd":
+            c = op_const(cur["b"]) or op_const(cur["a"])
+            other = cur["a"] if op_const(cur["b"]) else cur["b"]
+            if c is None or "v" not in c:
+                return ("?", "?")
+            v = c["v"]
+            if v & (v + 1) != 0:
+                return ("?", "?")
+            mask_bits = v.bit_length()
+            cur = origin(b, other)
+        elif cur["k"] == "bin" and cur["op"] in ("Shr", "ShrUnchecked"):
+            c = op_const(cur["b"])
+            if c is None or "v" not in c:
+                return ("?", "?")
+            shift += c["v"]
+            cur = origin(b, cur["a"])
+        else:
+            break
+    bits = min(x for x in (mask_bits, cast_bits, width) if x is not None)
+    return (shift, shift + bits)
+
+
 def r4(ctx):
     R = "C15-R4"
     ctx.rule(R, "names are stable and distinct: Dns::names is mutated only through entry(..).or_insert_with(closure calling "
@@ -207,11 +243,23 @@ def r4(ctx):
         ctx.inst(R, "addr-counter:increments", len(adds) == 2 and ones, nx.span, "both counters advance by exactly one per allocation" if len(adds) == 2 and ones else
                  "the address counter is not advanced by exactly one per allocated address")
         # the address is built from the pre-increment value
+    if nx:
+        for ctor, width in (("std::net::Ipv4Addr::new", 8), ("std::net::Ipv6Addr::new", 16)):
+            for bb, t in nx.calls(ctor):
+                ranges = []
+                for a in t["args"]:
+                    r_ = _bit_range(nx, a, width)
+                    if r_:
+                        ranges.append(r_)
+                ranges.sort()
+                ok = bool(ranges) and ranges[0][0] == 0 and all(ranges[i][1] == ranges[i + 1][0] for i in range(len(ranges) - 1))
+                ctx.inst(R, f"addr-bits:{ctor.rsplit('::', 2)[-2]}", ok, t["s"], f"counter bits {ranges} tile the address without gap or overlap" if ok else
+                         f"the counter bits placed into the address are {ranges}: they do not tile [0, n) contiguously, so two different counter values (names) map to the same address")
     rv = ctx.body(R, "turmoil::dns::Dns::reverse")
     if rv:
         ok = any(_on_field(rv, t["args"][0], NAMES) for bb, t in rv.calls(re.compile(r"^indexmap::IndexMap::iter$")))
         ctx.inst(R, "reverse:same-map", ok, rv.span, "reverse lookup scans Dns::names" if ok else "reverse lookup does not read Dns::names")
-    ctx.floor(R, 3)
+    ctx.floor(R, 5)
 
 
 def run(ctx):
